@@ -601,7 +601,10 @@ class Interp:
         return
 
     def st_Global(self, ctx, fr, s):
-        raise Unsupported('global statement', s)
+        # the named globals are only WRITTEN by the functions analysed (bookkeeping such as
+        # fsrecover._trname): assignments go to a local shadow, reads of an unassigned global fail
+        ctx.ex.dropped.add('global declaration (writes to module globals are not modelled)')
+        return
 
     def st_Import(self, ctx, fr, s):
         for a in s.names:
@@ -852,8 +855,9 @@ class Interp:
             ctx.oblige(pfx + 'inv-entry.' + lbl, b, s)
         # 2. havoc everything the body may modify
         names = assigned_names(body)
+        frozen = {nm: fr.locals[nm] for nm in getattr(ls, 'frozen', ()) if nm in fr.locals}
         for nm in sorted(names):
-            if nm in fr.locals:
+            if nm in fr.locals and nm not in frozen:
                 fr.locals[nm] = ctx.fresh_like(fr.locals[nm], nm)
         if ls.kinds:
             for nm, mk in ls.kinds.items():
@@ -886,6 +890,10 @@ class Interp:
                 return   # leaves the loop with this path's state; orelse skipped
             for lbl, b in ls.inv(ctx, fr):
                 ctx.oblige(pfx + 'inv-preserve.' + lbl, b, s, assume_after=False)
+            for nm, v0 in frozen.items():
+                from .contract import same_value
+                ctx.oblige(pfx + 'frozen.' + nm, same_value(ctx, v0, fr.locals.get(nm)), s,
+                           assume_after=False)
             if var0 is not None:
                 var1 = ls.decreases(ctx, fr)
                 ctx.oblige(pfx + 'decreases', z3.And(var0 >= 0, var1 < var0), s,
